@@ -89,7 +89,8 @@ def run_corpus(ctx, hx):
             name, opt, ca, cb, same = p[1], p[2], p[3], p[4], p[5]
             if same != "1":
                 ctx.violation(f"c15:corpus:{name}",
-                              f"corpus pair {name} at -O{opt}: one layout is {ca}, the other {cb}" +
+                              f"corpus pair {name} at -O{opt}: one layout is {ca}" + (f" printing {p[6]!r}" if ca == cb else "") +
+                              f", the other {cb}" + (f" printing {p[7]!r}" if ca == cb else "") +
                               (f" ({KNOWN_CLASS[name]})" if name in KNOWN_CLASS else ""),
                               {"file": "corpus/C15/" + fn, "pair": name, "opt": opt, "first": ca, "second": cb,
                                "first_output": p[6], "second_output": p[7]})
